@@ -249,6 +249,16 @@ func c07Configs(quick bool) []ediCfg {
 			}
 		}
 	}
+	// delimiters of two EQUAL runes (a match can start inside another one): next to a release character
+	// and next to values ending in the delimiter's rune the scan must still cut at the right place
+	for _, icr := range []bool{false, true} {
+		out = append(out,
+			ediCfg{Seg: "~", Elem: "**", Comp: ":", Rep: "^", Rel: "?", IgnoreCRLF: icr},
+			ediCfg{Seg: "~", Elem: "*", Comp: "::", Rep: "^^", Rel: "?", IgnoreCRLF: icr},
+			ediCfg{Seg: "~~", Elem: "*", Comp: ":", Rep: "", Rel: "\\", IgnoreCRLF: icr},
+			ediCfg{Seg: "~", Elem: "**", Comp: "", Rep: "", Rel: "", IgnoreCRLF: icr},
+			ediCfg{Seg: "éé", Elem: "**", Comp: "::", Rep: "", Rel: "?", IgnoreCRLF: icr})
+	}
 	return out
 }
 
@@ -573,6 +583,31 @@ func c07Run(c *core.Ctx) {
 					Decls: []c07Decl{{Name: "e1", Index: 1}, {Name: "e2", Index: 2}},
 					Want:  [][]string{{"e1=" + norm(v1), "e2=" + norm("z"+tail)}, {"e1=q", "e2=" + norm(tail)}}}, fmt.Sprintf("%d|padded", ci)) {
 					return
+				}
+			}
+		}
+	}
+	// ignore_crlf: line breaks vanish wherever they are and however many there are - a run long enough to
+	// fill the scanner's buffer more than 100 times over, inside a value, between segments, after the last one
+	for ci, cfg := range c07Configs(c.Quick()) {
+		if !cfg.IgnoreCRLF {
+			continue
+		}
+		for _, bs := range []int{4, 128} {
+			for _, brk := range []string{"\r\n", "\n", "\r"} {
+				run := strings.Repeat(brk, 110*bs/len(brk)+1)
+				s1 := cfg.encode(ediSegment{{{"S"}}, {{"ab"}}, {{"c"}}}, cfg.Seg)
+				s2 := cfg.encode(ediSegment{{{"S"}}, {{"q"}}, {{"r"}}}, cfg.Seg)
+				inside := strings.Replace(s1, "ab", "a"+run+"b", 1)
+				cfgb := cfg
+				cfgb.BufSize = bs
+				for k, in := range []string{inside + s2, s1 + run + s2, s1 + s2 + run, run + s1 + s2} {
+					owned = false
+					if !try(c07Case{Cfg: cfgb, Input: []byte(in), Family: "long-run-of-line-breaks|" + []string{"inside-a-value", "between-segments", "after-the-last-segment", "before-the-first-segment"}[k],
+						Decls: []c07Decl{{Name: "e1", Index: 1}, {Name: "e2", Index: 2}},
+						Want:  [][]string{{"e1=ab", "e2=c"}, {"e1=q", "e2=r"}}}, fmt.Sprintf("%d|long-breaks", ci)) {
+						return
+					}
 				}
 			}
 		}
